@@ -997,6 +997,7 @@ static inline int myth_join_counter_wait_body(myth_join_counter_t * jc) {
 }
 
 static inline int myth_join_counter_dec_body(myth_join_counter_t * jc) {
+  myth_ensure_init();
   while (1) {
     long s = jc->state;
     MYTH_VERIF_POINT(JC_DEC_BEFORE_CAS);
